@@ -180,14 +180,57 @@ type completeRunner struct {
 	d     *drive.Direct
 	obs   completeObs
 	fcfg  fiber.Config
-	exact bool // enumerated (bounded-exhaustive) family
+	exact bool   // enumerated (bounded-exhaustive) family
+	via   string // registered on the app, through a group, or on a mounted sub-app
 }
 
 func newCompleteRunner(e *ev.Env, c *ev.Case, p pattern, cfg Cfg) *completeRunner {
+	return newCompleteRunnerVia(e, c, p, cfg, 0)
+}
+
+// splitFirstLiteral cuts the pattern text at a '/' inside its first literal: prefix + rest spell
+// the pattern ("/api" + "/v1/:x"). ok=false if the first literal has no inner '/'.
+func splitFirstLiteral(p pattern, pick int) (prefix, rest string, ok bool) {
+	lit := p.Toks[0].Lit
+	var cuts []int
+	for i := 1; i < len(lit); i++ {
+		if lit[i] == '/' && lit[i-1] != '/' {
+			cuts = append(cuts, i)
+		}
+	}
+	if len(cuts) == 0 {
+		return "", "", false
+	}
+	k := cuts[pick%len(cuts)]
+	return escapeLit(lit[:k]), escapeLit(lit[k:]) + pattern{Toks: p.Toks[1:]}.String(), true
+}
+
+// via: how the pattern is registered — 0 app.Get(pattern); 1 app.Group(prefix).Get(rest);
+// 2 sub.Get(rest) on an app of its own, mounted with app.Use(prefix, sub). prefix = leading
+// segment(s) of the pattern's first literal; patterns without such a segment are registered
+// directly.
+func newCompleteRunnerVia(e *ev.Env, c *ev.Case, p pattern, cfg Cfg, via int) *completeRunner {
 	cr := &completeRunner{e: e, c: c, p: p, text: p.String(), keys: p.paramKeys(), cfg: cfg, fcfg: cfg.FiberConfig()}
 	app := cfg.NewApp()
-	ok := !e.Guard(c, "complete|register", cr.text, func() {
-		app.Get(cr.text, func(cx fiber.Ctx) error {
+	prefix, rest, split := splitFirstLiteral(p, via/3)
+	if !split {
+		via = 0
+	}
+	var sub *fiber.App
+	ok := !e.Guard(c, "complete|register", map[string]any{"pattern": cr.text, "via": via % 3, "prefix": prefix, "rest": rest}, func() {
+		var rt fiber.Router = app
+		text := cr.text
+		switch via % 3 {
+		case 1:
+			rt, text = app.Group(prefix), rest
+			e.Stat("registered_through_group", 1)
+		case 2:
+			sub = cfg.NewApp()
+			rt, text = sub, rest
+			e.Stat("registered_on_mounted_sub_app", 1)
+		}
+		cr.via = []string{"app", "group", "mounted-sub-app"}[via%3]
+		rt.Get(text, func(cx fiber.Ctx) error {
 			cr.obs.ran = true
 			cr.obs.vals = map[string]string{}
 			for _, k := range cr.keys {
@@ -197,6 +240,9 @@ func newCompleteRunner(e *ev.Env, c *ev.Case, p pattern, cfg Cfg) *completeRunne
 			}
 			return cx.SendStatus(200)
 		})
+		if sub != nil {
+			app.Use(prefix, sub)
+		}
 		cr.d = drive.NewDirect(app)
 	})
 	if !ok {
@@ -244,13 +290,16 @@ func (cr *completeRunner) checkFilling(vals []string) {
 	path := cr.p.fill(vals)
 	cfgs := cr.cfg.String()
 	detail := func(extra map[string]any) map[string]any {
-		m := map[string]any{"pattern": cr.text, "cfg": cfgs, "path": path, "values": vals}
+		m := map[string]any{"pattern": cr.text, "cfg": cfgs, "path": path, "values": vals, "registered_on": cr.via}
 		for k, v := range extra {
 			m[k] = v
 		}
 		return m
 	}
 	shape := patternShape(cr.p)
+	if cr.via != "" && cr.via != "app" {
+		shape += "|registered-on-" + cr.via
+	}
 	ran, got, status := cr.dispatch(path)
 	if status == -1 {
 		return
@@ -603,7 +652,7 @@ func runComplete(e *ev.Env) {
 		}
 		e.Stat("enum_patterns", 1)
 		for ci := 0; ci < 8; ci++ {
-			cr := newCompleteRunner(e, c, pat, cfg8(ci))
+			cr := newCompleteRunnerVia(e, c, pat, cfg8(ci), i+ci)
 			if cr == nil {
 				continue
 			}
@@ -692,7 +741,7 @@ func runComplete(e *ev.Env) {
 		vpool := []string{"", "x", "xy", "x-y", "x.y", "x/y", "Xy", "hello", "a", "b", "ab", "é", "1", "x_y", "~"}
 		cfg := cfg8(r.Intn(8))
 		cfg.CustomCtx = r.Chance(1, 4)
-		cr := newCompleteRunner(e, c, pat, cfg)
+		cr := newCompleteRunnerVia(e, c, pat, cfg, r.Intn(9))
 		if cr == nil {
 			return
 		}
@@ -738,7 +787,7 @@ func runComplete(e *ev.Env) {
 		pat := pattern{Toks: toks}
 		cfg := cfg8(r.Intn(8))
 		cfg.CustomCtx = r.Chance(1, 4)
-		cr := newCompleteRunner(e, c, pat, cfg)
+		cr := newCompleteRunnerVia(e, c, pat, cfg, r.Intn(9))
 		if cr == nil {
 			return
 		}
@@ -816,7 +865,7 @@ func runComplete(e *ev.Env) {
 		vpool := []string{"", "x", "xy", "a+b", "+", "x y", "1+1", "a b c", "+x", "y+", "Xy"}
 		cfg := cfg8(r.Intn(8))
 		cfg.CustomCtx = r.Chance(1, 4)
-		cr := newCompleteRunner(e, c, pat, cfg)
+		cr := newCompleteRunnerVia(e, c, pat, cfg, r.Intn(9))
 		if cr == nil {
 			return
 		}
